@@ -1,6 +1,7 @@
 #include "cap.hpp"
 #include <new>
 #include <cstring>
+#include <cstdio>
 Counters counters = {0, 0, 0, 0, 0, 0, 0};
 static Obj *pool[4] = {0, 0, 0, 0};
 static int libarr[8] = {10, 11, 12, 13, 14, 15, 16, 17};
@@ -17,6 +18,8 @@ int *libints(int n) { (void)n; return libarr; }
 const std::string name(const Obj &o) { if (o.get() == 103) return std::string(); if (o.get() == 102) return std::string("exactly-fifteen"); return std::string("obj") + std::to_string(o.get()); }  // "" and the longest small string included
 std::string *newstr(int v) { return new std::string(v % 2 ? "a-string-longer-than-the-small-buffer" : "short"); }
 double *newdbls(int n) { double *p = (double *)std::malloc(sizeof(double) * (n > 0 ? n : 1)); for (int i = 0; i < n; ++i) p[i] = 0.5 * i; return p; }
+void wrong_destructor(const char *which) { std::printf("wrong destructor: ~%s ran on an object of another class\n", which); std::fflush(stdout); std::_Exit(7); }
+beta::Item *beta::makeItem() { return new beta::Item(); }
 char *dupname(int v) { static const int lens[5] = {0, 1, 15, 16, 40}; int n = lens[(v < 0 ? -v : v) % 5]; char *p = (char *)std::malloc((size_t)n + 1); std::memset(p, 'd', n); p[n] = 0; return p; }
 // a pool of objects owned by the library; acquire hands one out, release_obj takes it back
 static Obj *slots[64];
